@@ -132,6 +132,7 @@ struct NameRef
    int kind; int idx;
    NameRef c_str() const { return *this; }
    size_t size() const { return 3; }                  /* length of the registered name: only its being < SPX_SET_MAX_LINE_LEN matters */
+   size_t length() const { return 3; }                /* std::string::length(), same */
 };
 template <int COUNT> struct NameTable
 {
